@@ -34,7 +34,7 @@ pub fn repo() -> String {
 pub fn finalize(wasm_code: &str, module: &str, string_formats: &[String], number_formats: &[String]) -> String {
     let gen_path = format!("{}/packages/beff-wasm/bundled-code/codegen-v2.js", repo());
     let mut gen_v2 = delete_comments(&std::fs::read_to_string(&gen_path).unwrap_or_else(|e| {
-        eprintln!("HARNESS-ERROR: cannot read {}: {}", gen_path, e);
+        println!("HARNESS-ERROR: cannot read {}: {}", gen_path, e);
         std::process::exit(2)
     }));
     let esm_tag = if module == "cjs" { "\nObject.defineProperty(exports, \"__esModule\", {\n  value: true\n});\n    " } else { "" };
@@ -97,7 +97,7 @@ pub fn compile_cmd(args: &[String]) -> i32 {
         match corpus.into_iter().find(|p| p.id == args[0]) {
             Some(p) => p,
             None => {
-                eprintln!("HARNESS-ERROR: no such project {}", args[0]);
+                println!("HARNESS-ERROR: no such project {}", args[0]);
                 return 2;
             }
         }
